@@ -71,6 +71,11 @@ TEXT = {
         "note": "Trusted: Lean kernel, hook + harness, Node 20. CanBeRemovedIfUnused and symbol-use dependencies are inputs of the model, not modelled; annotation-driven removal (@__PURE__, sideEffects:false) is only covered for the marking, not for call-level purity.",
         "technique": "Lean 4 proof on hand-written model + differential correspondence; Node run-time search",
     },
+    "C05": {
+        "level": "PARTIAL. Lean theorem lowering_preserves_behaviour: for every expression built from identifiers, literals, calls, property reads, optional property reads, parentheses and ??, in every world and from every state, esbuild's lowering (as modelled) yields the same value or exception and the same calls with the same arguments in the same order — by structural induction, no bound on nesting. The model's lowering is tied to the real parser by comparing S-expressions of the lowered AST on generated expressions. All other lowering passes named by the property are covered only by a search (programs lowered to each target and run in Node 20); `using` is not covered at all. One recorded known finding (BigInt ** lowered to Math.pow).",
+        "note": "Trusted: Lean kernel, harness (S-expression printer over js_ast), Node 20. The theorem covers two of the roughly fifteen lowering passes.",
+        "technique": "Lean 4 proof on hand-written model (transformation + semantics) + structural correspondence; Node run-time search",
+    },
     "C06": {
         "level": "Lean theorems on a model of enum compilation: for every enum with distinct member names the constant inlined for a member equals what the emitted closure stores under that name at run time (last-write-wins object semantics), every member gets a value, auto-increment starts at 0; tied by correspondence with the constants the real ts transform inlines. Type erasure is a search: ~120 kinds of erasable syntax wrapped in markers, typed rendering vs untyped rendering vs js loader must give identical code. Run-time constructs (merged namespaces/enums, cross-file const enums, parameter properties) are a search against the generator's reference semantics in Node. Three recorded known findings.",
         "note": "Trusted: Lean kernel, harness, Node 20, my reading of TypeScript's scoping rules. Decorators, import-equals, JSX options and tsconfig extends are not covered.",
@@ -98,5 +103,5 @@ TEXT = {
     },
 }
 
-_pending = "not claimed: the search c05-prog exists (programs lowered to every target and run in Node; it finds the recorded BigInt ** defect and seeded change C05-m1) but no Lean model of a lowering pass is tied to the code yet, so the property is not claimed on a search alone; the technique does apply (see DESIGN.md A.6); seeded change C05-m2 (`using`) cannot be detected with Node 20"
+_pending = "(unused) not claimed: the search c05-prog exists (programs lowered to every target and run in Node; it finds the recorded BigInt ** defect and seeded change C05-m1) but no Lean model of a lowering pass is tied to the code yet, so the property is not claimed on a search alone; the technique does apply (see DESIGN.md A.6); seeded change C05-m2 (`using`) cannot be detected with Node 20"
 NOT_APPLICABLE = {("C%02d" % i): _pending for i in range(1, 21)}
